@@ -352,6 +352,91 @@ def rule_same(ctx, rep):
                       "%d calls to Project::semantic, %d direct analysis calls" % (len(cs), len(other)))
 
 
+def _returns_file_path(hb):
+    """the helper's return place is written from a Url::to_file_path call (directly), or from constant Err aggregates only"""
+    good = False
+    for d in hb.defs.get(0, []):
+        if d[0] == "call":
+            if (d[2].callee or "").endswith("Url::to_file_path"):
+                good = True
+            else:
+                return False
+        elif d[0] == "stmt":
+            rv = d[3]
+            if rv[0] == "agg" and isinstance(rv[1], dict) and rv[1].get("adt") == "core::result::Result" and rv[1].get("variant") == "Err":
+                continue
+            if rv[0] == "use":
+                p = op_place(rv[1])
+                dd = hb.single_def(p[0]) if p is not None else None
+                if dd and dd[0] == "call" and (dd[2].callee or "").endswith("Url::to_file_path"):
+                    good = True
+                    continue
+            return False
+    return good
+
+
+def rule_scheme(ctx, rep, rid="R-C11-scheme"):
+    """A document is identified by its URL; the project identifies it by the path `Url::to_file_path` decodes - which does not look at the
+    scheme.  `git:/home/u/main.st?ref=HEAD` (the revision an editor shows in a diff view) and `file:///home/u/main.st` then are one file,
+    and opening the one replaces the text of the other.  Every call of Url::to_file_path in plc2x lies on the `file` side of a comparison of
+    the same URL's scheme with the constant "file"."""
+    r = rep.rule(rid, "every Url::to_file_path in plc2x is guarded by a comparison of the URL's scheme with \"file\" (documents with another scheme and the same path are other documents)",
+                 floor=1, floor_what="Url::to_file_path calls")
+    n = 0
+    for b in sorted(ctx.prog.bodies.values(), key=lambda x: x.id):
+        if b.f["crate"] != "ironplcc" or "::test" in norm(b.id):
+            continue
+        k = 0
+        dom = None
+        for c in sorted(b.calls(), key=lambda c: (c.loc[0], c.loc[1])):
+            if not (c.callee or "").endswith("Url::to_file_path"):
+                continue
+            k += 1
+            n += 1
+            fn = norm(b.id).replace("ironplcc::", "")
+            inst = "%s|to_file_path#%d" % (fn, k)
+            where = loc_str(b.f, c.loc)
+            if dom is None:
+                dom = b.dominators()
+            guarded = False
+            for c2 in b.calls():
+                u = c2.u or c2.callee or ""
+                if not (u.endswith("PartialEq::eq") or u.endswith("PartialEq::ne") or u.endswith("::eq") or u.endswith("::ne")) or len(c2.args) < 2:
+                    continue
+                consts = [b.const_str(a) for a in c2.args]
+                if "file" not in consts:
+                    continue
+                # the other side comes from Url::scheme
+                other = [a for a, cs in zip(c2.args, consts) if cs != "file"]
+                from_scheme = False
+                for a in other:
+                    p = op_place(a)
+                    cur = p
+                    for _ in range(6):
+                        if cur is None:
+                            break
+                        d = b.single_def(b.root(cur)[0])
+                        if d and d[0] == "call":
+                            if (d[2].callee or "").endswith("Url::scheme"):
+                                from_scheme = True
+                            break
+                        if d and d[0] == "stmt" and d[3][0] in ("use", "ref"):
+                            cur = op_place(d[3][1]) if d[3][0] == "use" else d[3][2]
+                            continue
+                        break
+                if not from_scheme:
+                    continue
+                # the comparison's outcome decides a branch that dominates the call
+                if c2.bb in dom.get(c.bb, ()):
+                    guarded = True
+            if guarded:
+                r.ok(inst, where, "on the `file` side of a scheme test")
+            else:
+                r.finding(inst + "|scheme-not-checked", where, "the path of the URL is taken whatever its scheme: a document `git:/p` or `untitled:/p` is taken for the file /p and replaces its text")
+    if not n:
+        rep.error(rid, "no call of Url::to_file_path in plc2x")
+
+
 def rule_idorigin(ctx, rep, rid="R-C11-idorigin"):
     """The editor and the command line must give one file one identity: both build FileIds with FileId::from_path of a file-system
     path (the editor: the path `Url::to_file_path` decodes).  A FileId built from the URL's text (`url.path()`, `as_str()`: still
@@ -392,6 +477,11 @@ def rule_idorigin(ctx, rep, rid="R-C11-idorigin"):
                     d = b.single_def(rt[0])
                     if d and d[0] == "call":
                         if (d[2].callee or "").endswith("Url::to_file_path"):
+                            ok = True
+                            break
+                        # a helper of the adapter that wraps to_file_path: every value it returns as Ok comes from that call
+                        hb = [x for x in ctx.prog.get(d[2].callee or "") if x.f["crate"] == "ironplcc"]
+                        if hb and _returns_file_path(hb[0]):
                             ok = True
                             break
                         cur = op_place(d[2].args[0]) if d[2].args else None
@@ -650,6 +740,7 @@ def run(ctx, rep):
     rule_stateless(ctx, rep)
     rule_keyorder(ctx, rep)
     rule_idorigin(ctx, rep)
+    rule_scheme(ctx, rep)
     rule_doctext(ctx, rep)
     rule_nodedup(ctx, rep)
     rule_origin(ctx, rep)
